@@ -23,7 +23,7 @@ type VerParams struct {
 }
 
 func genVer(r *rand.Rand, tier string) *VerParams {
-	mw := GenMW(r, MWGenOpts{MaxClients: 3, MaxStmts: 9, MaxKeys: 5, MaxCols: 2, Txns: true, Advance: true, Noops: true})
+	mw := GenMW(r, MWGenOpts{MaxClients: 3, MaxStmts: 9, MaxKeys: 5, MaxCols: 2, Txns: true, Advance: true, Noops: true, Skew: true})
 	mw.EPN = []int{2, 2, 3, 4, 0}[r.IntN(5)]
 	mw.Inter = 0
 	mw.ViewAfterCommit = true
